@@ -36,8 +36,16 @@ type c18GateCtl struct {
 	hold    chan struct{}
 	limit   map[int]int
 	visits  map[int][]string
+	seqAcct []c18SeqAcct // per ResyncDocument call: sequences the allocator handed out / released during the call
+	stats   func() (assigned, released int64)
 	blocked chan int
 	release chan struct{}
+}
+
+type c18SeqAcct struct {
+	Key                string
+	Assigned, Released int64
+	Written            bool
 }
 
 type c18Gate struct {
@@ -59,8 +67,16 @@ func (g *c18Gate) WriteUpdateWithXattrs(ctx context.Context, k string, xattrKeys
 		return g.DataStore.WriteUpdateWithXattrs(ctx, k, xattrKeys, exp, previous, opts, callback)
 	}
 	<-hold
+	var a0, r0 int64
+	if c.stats != nil {
+		a0, r0 = c.stats()
+	}
 	cas, err := g.DataStore.WriteUpdateWithXattrs(ctx, k, xattrKeys, exp, previous, opts, callback)
 	c.mu.Lock()
+	if c.stats != nil {
+		a1, r1 := c.stats()
+		c.seqAcct = append(c.seqAcct, c18SeqAcct{Key: k, Assigned: a1 - a0, Released: r1 - r0, Written: err == nil})
+	}
 	c.visits[g.col] = append(c.visits[g.col], k)
 	n := len(c.visits[g.col])
 	lim, has := c.limit[g.col]
@@ -83,6 +99,7 @@ type c18RStep struct {
 	Cols         []int       // nil: all collections (hasAllCollections)
 	Stop         map[int]int // per selected collection: per-mille of the pending documents after which the run is held (absent / nil map: run to completion)
 	Crash        bool        // the interruption is a crash
+	Continue     bool        // the run is only held (for the writes of During), then released without Stop: it completes
 	During       []c18W      // writes while the run is held
 }
 
@@ -488,7 +505,15 @@ func c18RRun(t *testing.T, rec *vRecorder, fl *c18Failer, stream string, c c18RC
 			// arm the gate
 			ctl := e.ctl
 			ctl.mu.Lock()
-			ctl.active, ctl.hold, ctl.limit, ctl.visits = true, make(chan struct{}), map[int]int{}, map[int][]string{}
+			ctl.active, ctl.hold, ctl.limit, ctl.visits, ctl.seqAcct = true, make(chan struct{}), map[int]int{}, map[int][]string{}, nil
+			ctl.stats = nil
+			if single {
+				// one feed goroutine and a harness that only writes while the run is held: the allocator's counters move
+				// only through the ResyncDocument call in progress
+				ctl.stats = func() (int64, int64) {
+					return int64(e.db.DbStats.Database().SequenceAssignedCount.Value()), int64(e.db.DbStats.Database().SequenceReleasedCount.Value())
+				}
+			}
 			ctl.blocked, ctl.release = make(chan int, 8), make(chan struct{})
 			ctl.mu.Unlock()
 			if err := e.db.ResyncManager.Start(e.ctx, ResyncOptions{Collections: base.NewCollectionNames(selNames...), Reset: s.Reset, RegenerateSequences: s.Regen}); err != nil {
@@ -544,6 +569,9 @@ func c18RRun(t *testing.T, rec *vRecorder, fl *c18Failer, stream string, c c18RC
 				if s.Crash {
 					how = 2
 				}
+				if s.Continue {
+					how = 1
+				}
 			} else if !e.waitState(BackgroundProcessStateCompleted) {
 				t.Fatalf("c18 run: run did not complete (step %d)", si)
 			}
@@ -571,7 +599,7 @@ func c18RRun(t *testing.T, rec *vRecorder, fl *c18Failer, stream string, c c18RC
 			e.db.FlushRevisionCacheForTest()
 			afterVisits, _ := e.observeDocs(ids)
 			steps = append(steps, fmt.Sprintf("TVisits %s %s", vs1, docsCoq(afterVisits)))
-			if how != 1 {
+			if nlimited > 0 {
 				interrupted++
 				// writes while the run is held
 				for _, w := range s.During {
@@ -586,13 +614,19 @@ func c18RRun(t *testing.T, rec *vRecorder, fl *c18Failer, stream string, c c18RC
 					o, _ := e.observeDocs(ids)
 					steps = append(steps, "TObs "+docsCoq(o))
 				}
-				preStop, _ := e.observeDocs(ids)
-				if err := e.db.ResyncManager.Stop(e.ctx); err != nil {
-					t.Fatalf("c18 run stop: %v", err)
-				}
-				close(ctl.release)
-				if !e.waitState(BackgroundProcessStateStopped) {
-					t.Fatalf("c18 run: run did not stop (step %d)", si)
+				if s.Continue {
+					close(ctl.release)
+					if !e.waitState(BackgroundProcessStateCompleted) {
+						t.Fatalf("c18 run: released run did not complete (step %d)", si)
+					}
+				} else {
+					if err := e.db.ResyncManager.Stop(e.ctx); err != nil {
+						t.Fatalf("c18 run stop: %v", err)
+					}
+					close(ctl.release)
+					if !e.waitState(BackgroundProcessStateStopped) {
+						t.Fatalf("c18 run: run did not stop (step %d)", si)
+					}
 				}
 				// the feed may have delivered a few more events before it noticed the terminator
 				if vs2, n2 := collect(); n2 > 0 {
@@ -602,7 +636,6 @@ func c18RRun(t *testing.T, rec *vRecorder, fl *c18Failer, stream string, c c18RC
 					o, _ := e.observeDocs(ids)
 					steps = append(steps, fmt.Sprintf("TVisits %s %s", vs2, docsCoq(o)))
 					afterVisits = o
-					_ = preStop
 				}
 				if how == 2 {
 					// the process died instead: nothing of this segment was persisted, and its memory is gone
@@ -620,6 +653,26 @@ func c18RRun(t *testing.T, rec *vRecorder, fl *c18Failer, stream string, c c18RC
 			rec.Err(fmt.Sprintf("segment:how=%d,visits=%d", how, nvis))
 			// ---- monitors on the segment ----
 			c18RSegmentMonitors(e, fl, desc, c, s, sel, preDocs, afterVisits, visited, oldTop, written, how)
+			// regenerate_sequences, "unused ones released": of the sequences the allocator hands out during one ResyncDocument
+			// call exactly one ends on the document when it is rewritten (none when the call cancels); the others are released
+			ctl.mu.Lock()
+			acct := append([]c18SeqAcct{}, ctl.seqAcct...)
+			ctl.mu.Unlock()
+			for _, a := range acct {
+				want := int64(0)
+				if a.Written && s.Regen {
+					want = 1
+				}
+				if a.Assigned-a.Released != want {
+					rec.Err("regen_visit:sequence_lost")
+					fl.Fail("regen_unused_sequences_released", "resync-regen-cas-retry-leaks-sequence",
+						map[string]any{"case": desc, "step": si, "doc": a.Key, "assigned": a.Assigned, "released": a.Released, "written": a.Written},
+						fmt.Sprintf("ResyncDocument(%s): the allocator handed out %d sequence(s), %d released, document rewritten=%v: %d sequence(s) neither on a document nor released",
+							a.Key, a.Assigned, a.Released, a.Written, a.Assigned-a.Released-want))
+				} else if a.Assigned > 0 {
+					rec.Err("regen_visit:sequences_accounted")
+				}
+			}
 			for _, d := range afterVisits {
 				if p := c18FindDoc(preDocs, d.ID); p != nil && top(*p) != top(d) && !written[d.ID] {
 					nontrivial = true
@@ -664,12 +717,18 @@ func c18RRun(t *testing.T, rec *vRecorder, fl *c18Failer, stream string, c c18RC
 				}
 			}
 			steps = append(steps, fmt.Sprintf("TEnd %d %d %s %s", how, st.Status.DocsChanged, cqNList(pseqs), cqList(pend)))
-			// monitor: a completed run that counted a change has invalidated every principal for EVERY collection
-			if how == 1 && st.Status.DocsChanged > 0 {
-				dirty = false
-				if !allInval && len(c.Users) > 0 {
-					fl.Fail("finish_invalidates_all_collections", "resync-completed-principals-not-invalidated", map[string]any{"case": desc, "step": si},
-						"the run reported completed with docs_changed > 0 but some principal's computed channels / roles are not invalidated for every collection")
+			// monitor (C18_finish_invalidates, repaired code): EVERY completed run has invalidated every principal for EVERY collection
+			if how == 1 {
+				if allInval || len(c.Users) == 0 {
+					dirty = false
+				} else {
+					sig := "resync-completed-principals-not-invalidated"
+					if st.Status.DocsChanged == 0 {
+						// the guard `docs_changed > 0` of the code before /repo bc044df
+						sig = "resync-reset-after-interrupted-run-principals-stale"
+					}
+					fl.Fail("finish_invalidates_all_collections", sig, map[string]any{"case": desc, "step": si, "docs_changed": st.Status.DocsChanged},
+						"the run reported completed but some principal's computed channels / roles are not invalidated for every collection")
 				}
 			}
 			// monitor (regenerate_sequences, all collections): every principal document got a fresh sequence
@@ -1033,6 +1092,7 @@ func c18RGenCase(r *vRand, ncols int, adversarial bool) c18RCase {
 				st.Stop[i] = []int{1, 300, 500, 700, 1000}[r.Intn(5)]
 			}
 			st.Crash = r.Chance(25)
+			st.Continue = !st.Crash && r.Chance(20) // only held for the writes below, then released: completes
 			for k := r.Intn(3); k > 0; k-- {
 				if w := nextWrite(); w != nil {
 					w.LoadBefore = nil
@@ -1106,6 +1166,11 @@ func c18RunStreams(t *testing.T, rec *vRecorder, fl *c18Failer, rnd *vRand) {
 	c18RRun(t, rec, fl, "regen", one(fa, fb, start(false, true, nil, half), start(false, true, nil, nil), us))
 	c18RRun(t, rec, fl, "regen", one(fa, fa, start(false, true, nil, map[int]int{0: 300}), c18RStep{Kind: "write", W: c18RW(6, []string{"1-aaa"}, c18B{A: "A"}, false)}, start(false, true, nil, nil), us))
 	c18RRun(t, rec, fl, "regen", one(fa, fb, start(false, true, nil, nil), us, start(false, true, nil, half), start(false, false, nil, nil), us))
+
+	// held, a queued document rewritten meanwhile (its ResyncDocument loses the CAS on the event's copy and runs again), released: completes
+	c18RRun(t, rec, fl, "regen", one(fa, fb, c18RStep{Kind: "start", Regen: true, Stop: map[int]int{0: 300}, Continue: true, During: []c18W{
+		c18W1(5, []string{"3-aaa", "2-aaa", "1-aaa"}, c18B{A: "B", B: "B", TR: "r0", GA: "E"}, false),
+		c18W1(4, []string{"2-ccc", "1-aaa"}, c18B{A: "C", B: "A", U: "u0", GA: "C", GB: "D"}, false)}}, us))
 
 	// ---- (r3) collections: two collections with different functions, the `collections` restriction ----
 	h2 := append(c18RShift(c18ShapeCorpus(), 0), c18RShift(c18ShapeCorpus(), 1)...)
